@@ -138,11 +138,40 @@ pub fn local_any(port: u16) -> &'static str {
     }
 }
 
+/// Ports this process holds a system-wide claim on. A real server binds its port with
+/// SO_REUSEPORT, so two harness processes of different check runs that picked the same port at
+/// the same moment would have their servers share one port -- and each other's traffic. A claim
+/// is an abstract-namespace unix socket named after the port: exclusive across processes, gone
+/// when the process exits.
+static CLAIMS: std::sync::Mutex<Vec<(u16, std::os::unix::net::UnixDatagram)>> = std::sync::Mutex::new(Vec::new());
+
+fn claim_port(p: u16) -> bool {
+    use std::os::linux::net::SocketAddrExt;
+    let mut c = CLAIMS.lock().unwrap();
+    if c.iter().any(|(q, _)| *q == p) {
+        return true;
+    }
+    let Ok(addr) = std::os::unix::net::SocketAddr::from_abstract_name(format!("rtverif-port-{}", p)) else { return true };
+    match std::os::unix::net::UnixDatagram::bind_addr(&addr) {
+        Ok(s) => {
+            c.push((p, s));
+            true
+        }
+        Err(_) => false,
+    }
+}
+
 pub fn free_port(also_tcp: bool) -> u16 {
     let shard = PORT_SHARD.load(std::sync::atomic::Ordering::Relaxed) % 20;
+    // (different processes start at different places of the shard's range)
+    static START: std::sync::Once = std::sync::Once::new();
+    START.call_once(|| PORT_CTR.store((std::process::id() * 37) % 1000, std::sync::atomic::Ordering::Relaxed));
     for _ in 0..1000 {
         let c = PORT_CTR.fetch_add(1, std::sync::atomic::Ordering::Relaxed) % 1000;
         let p = (10_000 + shard * 1000 + c) as u16;
+        if !claim_port(p) {
+            continue;
+        }
         if is_v6(p) {
             continue;
         }
